@@ -157,7 +157,8 @@ def api_c_type(ti, oi, pos, pv):
 # ------------------------------------------------------------------ C07 ----------------------
 LITERALS = ["'a'", "'a b'", "'A b C'", "'k = v'", "'a =b'", "'x  = y'", "'a;b'", "'--x'", "'#x'", "'/* x */'", "'NULL'", "'select'",
             "'CREATE TABLE z'", "'10%'", "'a.b'", "'a_b-c'", "'(x)'", "'a,b'", "'a, b'", "'a=b'", "'it is'", "''", "'black and white'", "'this Or that'",
-            "'not null'", "'a''b''c'", "'it''s'", "'rock ''n'' roll'", "'not for sale'", "'FOR'", "'x for'"]
+            "'not null'", "'a''b''c'", "'it''s'", "'rock ''n'' roll'", "'not for sale'", "'FOR'", "'x for'",
+            "'Order # 5'", "'a # b'", "'#fff'", "'see #12'", "'a -- b'", "'50 % off'"]
 NLIT = len(LITERALS)
 NUMBERS = ["0", "1", "4", "10", "007", "00", "0012", "123456", "9223372036854775808"]
 NNUM = len(NUMBERS)
@@ -173,6 +174,7 @@ POSITIONS = [
     ("named table check", "CREATE TABLE t (p varchar(9), q int, CONSTRAINT c CHECK (p <> {L}));", lambda r: r[0]["checks"][0]["statement"][len("p <> "):]),
 ]
 NPOS = len(POSITIONS)
+PI = env_int("VF_PI", -1)
 # known finding C07/respaced-literal: the pre-processor's spacing rules for '(' ')' ', ' '=' and
 # its comment scanner reach inside quotes - literals containing them come back altered
 KF_LITERALS = {"'(x)'", "'a, b'", "'a=b'", "'/* x */'"}
@@ -195,6 +197,7 @@ def c_literal(li: int, pi: int) -> bool:
     characters written, quotes included.
 
     pre: 0 <= li < NLIT and 0 <= pi < NPOS
+    pre: PI < 0 or pi == PI
     pre: not kf_respaced_literal(li)
     post: _
     """
@@ -232,6 +235,162 @@ def api_c_number(ni, last):
     got = DDLParser(ddl).run()
     v = got[0]["columns"][1]["default"] if got else None
     return {"ddl": ddl, "got_default": v, "expected": int(NUMBERS[ni]), "reproduced": not (type(v) is int and v == int(NUMBERS[ni]))}
+
+
+# ------------------------------------------------------------------ C06: identifier characters, relational ----
+# the same statement written with the neutral name `zz` and with a catalogued name: the result with the name must be the
+# result with `zz`, renamed - for every name position (table, schema, column in definition / key list / constraint list /
+# index list / ALTER, constraint, index, sequence, referenced table)
+IDENT_TEMPLATES = [
+    "CREATE TABLE {N} (a int, b int);",
+    "CREATE TABLE s.t (p int, {N} varchar(10) NOT NULL, q int, PRIMARY KEY ({N}));",
+    "CREATE TABLE t (p int, {N} int, q int, CONSTRAINT c1 UNIQUE ({N}, q));",
+    "CREATE TABLE t (p int, q int, CONSTRAINT {N} PRIMARY KEY (p));",
+    "CREATE TABLE t (p int, q int);\nCREATE INDEX {N} ON t (p);",
+    "CREATE TABLE t (p int, {N} int);\nCREATE INDEX i ON t ({N});",
+    "CREATE SEQUENCE {N} START 1;",
+    "CREATE TABLE t (p int, q int REFERENCES {N} (x));",
+    "CREATE TABLE t (p int, {N} int);\nALTER TABLE t DROP COLUMN {N};",
+    "CREATE TABLE {N}.t (p int);",
+    "CREATE TABLE t (\n  p int,\n  {N} int, q int,\n  r int\n);",
+    "CREATE TABLE t (p int, {N} int DEFAULT 0 NOT NULL, q int);",
+]
+NIT = len(IDENT_TEMPLATES)
+IDENT_NAMES = ["serial#", "user#", "a$b", "col#1", "x@y", "_x", "x1", "UserName", "x-y", "tmp$", "$a", "@v", "a#b#", "ZZ", "`order#`", '"FILE#"', "[a#]", "`ab`"]
+NIN = len(IDENT_NAMES)
+
+
+def _rename(o, a, b):
+    if isinstance(o, str):
+        return o.replace(a, b)
+    if isinstance(o, list):
+        return [_rename(x, a, b) for x in o]
+    if isinstance(o, dict):
+        return {k: _rename(v, a, b) for k, v in o.items()}
+    return o
+
+
+# (computed at import, outside CrossHair's tracing: a lazily filled cache makes paths non-deterministic)
+IDENT_BASE = {ti: run(t.replace("{N}", "zz")) for ti, t in enumerate(IDENT_TEMPLATES)}
+
+
+def c_ident_rel(ni: int, ti: int) -> bool:
+    """
+    C06: identifier #ni (letters, digits, _ $ # @ -, mixed case, delimited forms containing '#')
+    at the name position of template #ti is reported verbatim: the result equals the result for the
+    neutral name `zz` with `zz` renamed - nothing else changes, nothing is cut, lost or added.
+
+    pre: 0 <= ni < NIN and 0 <= ti < NIT
+    post: _
+    """
+    try:
+        got = run(IDENT_TEMPLATES[ti].replace("{N}", IDENT_NAMES[ni]))
+    except Exception:
+        return False
+    return got == _rename(IDENT_BASE[ti], "zz", IDENT_NAMES[ni])
+
+
+def api_c_ident_rel(ni, ti):
+    from simple_ddl_parser import DDLParser
+    base = DDLParser(IDENT_TEMPLATES[ti].replace("{N}", "zz")).run()
+    ddl = IDENT_TEMPLATES[ti].replace("{N}", IDENT_NAMES[ni])
+    try:
+        got = DDLParser(ddl).run()
+    except Exception as e:
+        got = f"{type(e).__name__}: {e}"
+    want = _rename(base, "zz", IDENT_NAMES[ni])
+    return {"ddl": ddl, "got": got, "expected": want, "reproduced": got != want}
+
+
+# ------------------------------------------------------------------ C10: the text handed to the parser does not depend on the mode ----
+MODE_TEXTS = [
+    "CREATE TABLE t (a int, b varchar(10) NOT NULL DEFAULT 'x', PRIMARY KEY (a));",
+    "CREATE TABLE s.t (`order#` int, `b` varchar(10), c int);",
+    "CREATE TABLE t (a int, b varchar(9) DEFAULT '#fff', c int);",
+    "CREATE TABLE t (\n  a int, -- first\n  b int,\n  c int\n);",
+    "# a note\nCREATE TABLE t (a int, b int);\n/* block */\nCREATE INDEX i ON t (a DESC, b);",
+    "CREATE TABLE s.t (a int, b int);\nALTER TABLE s.t ADD CONSTRAINT fk FOREIGN KEY (a) REFERENCES o (x);\nALTER TABLE s.t ADD c int;\nALTER TABLE s.t ADD d int;",
+    "CREATE TABLE t (a int, b int);\nALTER TABLE t ADD c int;\nALTER TABLE t DROP COLUMN a;\nALTER TABLE t ADD e varchar(3);",
+    "CREATE TABLE t (a int CHECK (a > 0), b int UNIQUE, serial# int);",
+    "CREATE SEQUENCE s.q START 1 INCREMENT BY 2;\nCREATE TABLE t (a int);",
+    "CREATE TYPE e AS ENUM ('a', 'b');\nCREATE SCHEMA sc;\nCREATE TABLE sc.t (v e, w int);",
+    "CREATE TABLE t (a int, b int, CONSTRAINT c1 UNIQUE (a, b));",
+    "DROP TABLE s.old;\nCREATE TABLE t (a int);",
+]
+NMT = len(MODE_TEXTS)
+ALL_MODES = ["sql", "redshift", "spark_sql", "mysql", "bigquery", "mssql", "databricks", "sqlite", "vertics", "ibm_db2", "postgres", "oracle", "hql", "snowflake", "athena"]
+COMMON_T = ["table_name", "primary_key", "alter", "checks", "index", "partitioned_by", "tablespace", "constraints"]
+COMMON_C = ["name", "type", "size", "references", "unique", "nullable", "default", "check"]
+MODE_BASE = {}  # filled at import, below
+
+
+def _bq(o):
+    """BigQuery presentation: schema is called dataset (recursively, e.g. in references)"""
+    if isinstance(o, dict):
+        return {("schema" if k == "dataset" else k): _bq(v) for k, v in o.items()}
+    if isinstance(o, list):
+        return [_bq(x) for x in o]
+    return o
+
+
+def _common_view(res):
+    out = []
+    for e in res:
+        e = _bq(e)
+        if isinstance(e, dict) and "table_name" in e and "columns" in e:
+            v = {k: e.get(k) for k in COMMON_T}
+            # index entries: `clustered` is dialect presentation (reported in mssql mode only), as in harness/c10.py
+            v["index"] = [{k: x for k, x in i.items() if k != "clustered"} for i in (e.get("index") or [])]
+            v["schema"] = e.get("schema")
+            v["columns"] = [{k: c.get(k) for k in COMMON_C} for c in e["columns"]]
+            out.append(v)
+        else:
+            out.append(e)
+    return out
+
+
+MODE_BASE.update({si: _common_view(run(t, "sql")) for si, t in enumerate(MODE_TEXTS)})
+
+
+def _covers(m, b) -> bool:
+    """mode view vs default view: equal, except that a column record (a dict with name and type, e.g. inside the alter
+    section) may carry additional dialect attributes (oracle: encrypt, redshift: encode) - per-dialect column extras are
+    presentation; every attribute of the default view must be there with the same value"""
+    if isinstance(b, dict) and isinstance(m, dict):
+        column_like = "name" in b and "type" in b
+        if not column_like and set(m) != set(b):
+            return False
+        return all(k in m and _covers(m[k], v) for k, v in b.items())
+    if isinstance(b, list) and isinstance(m, list):
+        return len(m) == len(b) and all(_covers(x, y) for x, y in zip(m, b))
+    return type(m) is type(b) and m == b
+
+
+def c_mode_text(mi: int, si: int) -> bool:
+    """
+    C10 end to end: catalogued script #si parsed with output mode #mi yields the same entities in
+    the same order with the same common fields as with the default mode, and does not raise -
+    whatever the text contains ('#' in names and literals, comments, ALTER sequences).
+
+    pre: 0 <= mi < 15 and 0 <= si < NMT
+    post: _
+    """
+    try:
+        got = run(MODE_TEXTS[si], ALL_MODES[mi])
+    except Exception:
+        return False
+    return _covers(_common_view(got), MODE_BASE[si])
+
+
+def api_c_mode_text(mi, si):
+    from simple_ddl_parser import DDLParser
+    ddl = MODE_TEXTS[si]
+    base = _common_view(DDLParser(ddl).run())
+    try:
+        got = _common_view(DDLParser(ddl).run(output_mode=ALL_MODES[mi]))
+    except Exception as e:
+        got = f"{type(e).__name__}: {e}"
+    return {"ddl": ddl, "mode": ALL_MODES[mi], "common_view_in_mode": got, "common_view_default": base, "reproduced": not _covers(got, base)}
 
 
 # ------------------------------------------------------------------ C11 ----------------------
